@@ -1,0 +1,20 @@
+//go:build verif
+// +build verif
+
+// Contracts for the deductive verifier in /verif (govc). Comment-only: no executable code.
+package request
+
+// The request's ExtraRequestInfo names the tenant by the Host header, lower-cased and without port (C10).
+//@ func (*ExtraRequestInfoFactory).NewExtraRequestInfo props C10
+//@   requires [wf] req != nil && req.URL != nil
+//@   modifies nothing
+//@   ensures [hostname_from_host] result1 == nil ==> result != nil && result.Hostname == hostNoPort(req.Host) && result.UpstreamCluster == nil && !result.IsProxyRequest
+
+//@ func ExtraRequestInfoFrom props C10
+//@   trusted "typed lookup of a context value (context.Context.Value is not modelled)"
+//@   pure
+//@   ensures result == extraInfoOf(ctx) && result1 == (extraInfoOf(ctx) != nil)
+//@ func WithExtraRequestInfo props C10
+//@   trusted "context.WithValue (not modelled): the child context carries info under the package's private key"
+//@   pure
+//@   ensures result != nil && extraInfoOf(result) == info
